@@ -751,6 +751,21 @@ fn forms_c07<T: JoinKind>(ctx: &Ctx, name: &str, x: &[u32], b: &BitSet, bv: &[u3
             cap,
         );
         tree_fail!("(&b,(&s).maybe()).par_join", r);
+        // an optional negated member: present exactly where the component is absent
+        let want_optnot = expect_rows(bv, |i| Obs::Opt(if x.contains(&i) { None } else { Some(0) }));
+        let seq_optnot: Vec<Row> = (b, (!&st).maybe()).join().map(|(i, c)| (i, Obs::Opt(c.map(|()| 0)))).collect();
+        if seq_optnot != want_optnot {
+            fails.push(Fail { form: "(&b,(!&s).maybe()).join".into(), kind: name.into(), xmask: x.to_vec(), bmask: bv.to_vec(), detail: format!("got {:?}, expected {:?}", seq_optnot, want_optnot), tree: None });
+        }
+        let r = for_each_tree(
+            |decide, _| {
+                let mut rows: Vec<(Vec<u8>, Row)> = vec![];
+                (b, (!&st).maybe()).par_join().verif_drive(decide, &mut |path, (i, c)| rows.push((path.to_vec(), (i, Obs::Opt(c.map(|()| 0))))));
+                judge(&mut rows, &want_optnot)
+            },
+            cap,
+        );
+        tree_fail!("(&b,(!&s).maybe()).par_join", r);
         // entities as a member
         let ents = ctx.w.entities();
         let want_e = expect_rows(both, |i| Obs::Ent(i, ctx.live[&i].gen().id()));
@@ -774,7 +789,7 @@ fn forms_c07<T: JoinKind>(ctx: &Ctx, name: &str, x: &[u32], b: &BitSet, bv: &[u3
             cap,
         );
         tree_fail!("(&s.restrict(),&b).par_join", r);
-        stats.joins += 6;
+        stats.joins += 8;
     }
     if T::HAS_PAR_MUT {
         let mut st = ctx.w.write_storage::<T>();
@@ -867,6 +882,9 @@ fn forms_c07_real<T: JoinKind>(ctx: &Ctx, name: &str, x: &[u32], b: &BitSet, bv:
             let mut got: Vec<Row> = pool.install(|| (b, (&st).maybe()).par_join().map(|(i, c)| (i, Obs::Opt(c.map(|c| c.val())))).collect());
             got.sort_by_key(|r| r.0);
             chk!(fails, name, format!("(&b,(&s).maybe()).par_join() on a pool of {}", n), x, bv, got, want_opt.clone());
+            let mut got: Vec<Row> = pool.install(|| (b, (!&st).maybe()).par_join().map(|(i, c)| (i, Obs::Opt(c.map(|()| 0)))).collect());
+            got.sort_by_key(|r| r.0);
+            chk!(fails, name, format!("(&b,(!&s).maybe()).par_join() on a pool of {}", n), x, bv, got, expect_rows(bv, |i| Obs::Opt(if x.contains(&i) { None } else { Some(0) })));
             let mut got: Vec<Row> = pool.install(|| (&ents, &st, b).par_join().map(|(e, _c, i)| (i, Obs::Ent(e.id(), e.gen().id()))).collect());
             got.sort_by_key(|r| r.0);
             chk!(fails, name, format!("(&entities,&s,&b).par_join() on a pool of {}", n), x, bv, got, want_e.clone());
@@ -874,7 +892,7 @@ fn forms_c07_real<T: JoinKind>(ctx: &Ctx, name: &str, x: &[u32], b: &BitSet, bv:
             let mut got: Vec<Row> = pool.install(|| (&rs, b).par_join().map(|(p, i)| (i, Obs::Val(p.get().val()))).collect());
             got.sort_by_key(|r| r.0);
             chk!(fails, name, format!("(&s.restrict(),&b).par_join() on a pool of {}", n), x, bv, got, want_val.clone());
-            stats.joins += 7;
+            stats.joins += 8;
         }
         if T::HAS_PAR_MUT {
             let mut st = ctx.w.write_storage::<T>();
